@@ -398,7 +398,10 @@ theorem step_sim (src : Source α) (op : WalletOp α) (w : Wallet α) (H : List 
     simp only [Wallet.step, specStep]
     refine ⟨?_, inv⟩
     rw [← inv.keys]; simp
-  | add a =>
+  | add oa =>
+    cases oa with
+    | none => exact ⟨rfl, inv⟩
+    | some a =>
     simp only [Wallet.step, specStep]
     refine ⟨by first | rfl | trivial, ?_⟩
     constructor
